@@ -127,8 +127,11 @@ def run(R, env):
             # no nominee -> no success
             po_pred = lambda t: loaded_field(prog, t, "state", ["pending_owner"], crate)
             rem, n = variant_world_edges(hctx, po_pred, "None")
-            w2 = hctx.with_removed(rem).settle()
-            succ = [e for e in exits(w2) if e["kind"] != "err"]
+            rem_ok, n_ok = world_edges(hctx, po_pred, False)
+            n = n or n_ok or sum(1 for _, atom in hctx.atoms() if atom[0] == "variant" and any(po_pred(s_) for s_ in subterms(atom[1])))
+            w2 = hctx.with_removed(rem | rem_ok).settle()
+            from engine.analysis import success_exits
+            succ = success_exits(w2)
             R.ob("C12.R3", crate + ":no-nominee-no-success", n >= 1 and not succ, "with pending_owner = None a success exit is reachable (%s)" % [w2.body.loc(e["bb"]) for e in succ], fn=hk)
         # ---- R4
         shared.admin_writers(R, env, prog, crate, "C12.R4")
